@@ -20,17 +20,17 @@ def job(a):
 
 def build_exe(tag):
     out = build.fresh_dir(tag)
-    return build.build_harness(out, "asan", "h_addr", "h_addr.c", ["modules/iauth_misc.c"], libs=())
+    return build.build_harness(out, "asan", "h_addr", "h_addr.c", ["modules/iauth_misc.c", "src/common.c"], libs=())
 
 
 def build_fuzzer(tag):
     """libFuzzer build (clang 14, ASan+UBSan) of the same harness: check_string() on coverage-guided inputs."""
     out = build.fresh_dir(tag)
-    return build.build_harness(out, "fuzz", "f_pton", "h_addr.c", ["modules/iauth_misc.c"], libs=(), extra=["-DH_ADDR_FUZZ"],
+    return build.build_harness(out, "fuzz", "f_pton", "h_addr.c", ["modules/iauth_misc.c", "src/common.c"], libs=(), extra=["-DH_ADDR_FUZZ"],
                                link_extra=["-fsanitize=fuzzer"])
 
 
-FUZZ_SEEDS = ["10.1.*", "2001:db8::/32", "1.2.3.4/27", "*", "::ffff:1.2.3.4", "1:2:3:4:5:6:7:8", "a::b:*", "::1/128", "0::", "1.2.3.4",
+FUZZ_SEEDS = ["2001:DB8::/32", "FE80::1", "ABCD:EF01::*", "10.1.*", "2001:db8::/32", "1.2.3.4/27", "*", "::ffff:1.2.3.4", "1:2:3:4:5:6:7:8", "a::b:*", "::1/128", "0::", "1.2.3.4",
               "ffff:ffff:ffff:ffff:ffff:ffff:255.255.255.255/128", "::ffff:10.1.2.0/24", "a:2:3:4:c5:6:7::", "0:0:0:0:0:0:1.2.3.4", "127.*"]
 
 
